@@ -10,7 +10,7 @@ HEAD=$(git -C /repo rev-parse --short HEAD)
 python3 - "$P" "$ID" "$WHAT" "$NEEDS" "$HEAD" <<'PY'
 import json,sys
 p,i,w,n,h=sys.argv[1:6]
-json.dump({"property":p,"origin":"sub-agent (round 2)","what":w,"needs":n,"ran":{"confirmed":"patch applies to /repo HEAD (%s); built; cargo test -p bindgen-tests --test tests (only the 3 always-failing tests fail) and -p bindgen --lib re-run by me in the scratch worktree; demo.sh fails with the change and passes on /repo's unchanged build (demo_changed.log / demo_base.log)"%h}},open("/verif/seeded/%s/meta.json"%i,"w"),indent=1)
+json.dump({"property":p,"origin":"sub-agent","what":w,"needs":n,"ran":{"confirmed":"patch applies to /repo HEAD (%s); built; cargo test -p bindgen-tests --test tests (only the 3 always-failing tests fail) and -p bindgen --lib re-run by me in the scratch worktree; demo.sh fails with the change and passes on /repo's unchanged build (demo_changed.log / demo_base.log)"%h}},open("/verif/seeded/%s/meta.json"%i,"w"),indent=1)
 PY
 git -C /repo worktree remove --force /tmp/wt-$P
 rm -f /tmp/confirm-$ID.txt
